@@ -17,8 +17,8 @@
 typedef mx_scn scn_t;
 
 /* ---- injections ---- */
-enum { INJ_NONE = 0, INJ_PLAIN, INJ_RANDOM, INJ_FOREIGN, INJ_REFLECT, INJ_HSKEY, INJ_HSKEY_OUTER22, INJ_ENCODE, INJ_N };
-static const char *injname[] = { "none", "plaintext-record", "random-body-record", "foreign-connection-record", "reflected-record", "hs-key-sealed-appdata", "hs-key-sealed-appdata-outer22", "encode-before-complete" };
+enum { INJ_NONE = 0, INJ_PLAIN, INJ_RANDOM, INJ_FOREIGN, INJ_REFLECT, INJ_HSKEY, INJ_HSKEY_OUTER22, INJ_ENCODE, INJ_AUTH_APPDATA, INJ_N };
+static const char *injname[] = { "none", "plaintext-record", "random-body-record", "foreign-connection-record", "reflected-record", "hs-key-sealed-appdata", "hs-key-sealed-appdata-outer22", "encode-before-complete", "peer-sealed-appdata-before-finished" };
 typedef struct { int kind; int vmaj, vmin; int len; int epoch; } inj_t;
 
 static unsigned char **foreign; static int *foreignlen;   /* app-data records captured from another connection of the same scenario, per direction */
@@ -95,6 +95,14 @@ static int build_injection(mx_conn *k, mx_ep *tgt, const inj_t *in, unsigned cha
         while (mx_rec_at(k->wire[d], k->wirelen[d], off, dtls, &r)) { last = off; lastn = r.hdr + r.len; off += lastn; }
         if (last < 0) return 0;
         memcpy(out, k->wire[d] + last, lastn); return lastn; }
+    case INJ_AUTH_APPDATA: {
+        /* the (not yet verified) peer itself seals application records under the keys being negotiated, before its Finished was
+           processed by the target; several in a row so that DTLS sequence numbers pass the replay window */
+        if (matrixSslHandshakeIsComplete(tgt->ssl)) return 0;
+        if (early_data_legit(tgt) || (tgt->role == MX_SERVER && tgt->ssl->tls13ServerEarlyDataEnabled)) return 0;   /* more 0-RTT data from the PSK holder is legitimate early data */
+        int tot = 0;
+        for (int i = 0; i < in->len; i++) { char msg[40]; int ml = snprintf(msg, sizeof msg, "EVIL|peer-early-%02d", i); int l = mx_seal_as(peer, 23, (unsigned char *) msg, ml, out + tot); if (l <= 0) return 0; tot += l; }
+        return tot; }
     case INJ_HSKEY: case INJ_HSKEY_OUTER22: {
         /* key-holding peer: a record sealed under the *handshake* traffic key of the honest peer with inner type 23 */
         if (tgt->ver != MX_TLS13) return 0;
@@ -132,7 +140,8 @@ static void child_run(void *a_)
         if (n <= 0) { vf_stat("injection_not_applicable", 1); return; }
         M.injected = 1; vf_stat("injections_delivered", 1);
         vf_distinct("%s|%s|ca%d|r%d|%s|cut%d|st%d|%s|%d.%d|%d", verclass(M.scn->cfg.ver), M.scn->name, M.scn->cfg.clientAuth, M.scn->resumed, a->target ? "S" : "C", a->cut, tgt->ssl->hsState, injname[a->inj->kind], a->inj->vmaj, a->inj->vmin, a->inj->len);
-        if (!tgt->dead) mx_feed(tgt, rec, n);
+        if (k->dtls) { int off = 0; mx_rec r; while (off < n && mx_rec_at(rec, n, off, 1, &r)) { if (!tgt->dead) mx_feed(tgt, rec + off, r.hdr + r.len); off += r.hdr + r.len; } }
+        else if (!tgt->dead) mx_feed(tgt, rec, n);
     }
     /* let the honest handshake continue, then honest traffic both ways */
     mx_conn_run(k, NULL, NULL, 300);
@@ -168,6 +177,7 @@ static void build_catalogue(int ver)
         catalogue[ncat++] = (inj_t) { INJ_RANDOM, dtls ? 254 : 3, dtls ? (ver == MX_DTLS10 ? 255 : 253) : 3, rl[l], ep };
     catalogue[ncat++] = (inj_t) { INJ_FOREIGN };
     catalogue[ncat++] = (inj_t) { INJ_REFLECT };
+    catalogue[ncat++] = (inj_t) { INJ_AUTH_APPDATA, 0, 0, 1 }; catalogue[ncat++] = (inj_t) { INJ_AUTH_APPDATA, 0, 0, 9 };
     if (ver == MX_TLS13) { catalogue[ncat++] = (inj_t) { INJ_HSKEY }; catalogue[ncat++] = (inj_t) { INJ_HSKEY_OUTER22 }; }
 }
 
